@@ -74,3 +74,18 @@ Example C16_example :
   exists r, product_schedule 5 true 2 (1#100) true (2#100) (5#100) (7#100) 1 (1#100) = Some r /\
             nth 4 r 0 == 7#100 /\ nth 1 r 0 == (5#100) + (1#100) * (102#100).
 Proof. eexists. split. vm_compute. reflexivity. split; vm_compute; reflexivity. Qed.
+
+(* investment tax credit, grants, incentives and fees change capital cost by exactly their stated amounts *)
+From Verif Require Import Model.Costs Proofs.CostsProofs.
+Theorem C16_itc_grants : forall k : cost_in,
+  (k_ritc_provided k = true -> ritc_value k == k_ritc k * ccap_pre k /\
+                               ccap k == (1 - k_ritc k) * ccap_pre k + k_flat k - k_other k - k_grant k) /\
+  (k_ritc_provided k = false -> ritc_value k == 0 /\ ccap k == ccap_pre k + k_flat k - k_other k - k_grant k).
+Proof. exact itc_exact. Qed.
+Print Assumptions C16_itc_grants.
+
+(* annual fees and tax relief change annual O&M by exactly their stated amounts *)
+Theorem C16_fees_tax_relief : forall k : cost_in,
+  coam k == coam_pre k + redrill_amortised k + k_annual_fee k - k_taxrelief k.
+Proof. exact coam_fees_exact. Qed.
+Print Assumptions C16_fees_tax_relief.
